@@ -9,12 +9,14 @@ import (
 	"path"
 	"sort"
 	"strings"
+	"sync"
 	"time"
 
 	"github.com/go-git/go-billy/v5"
 )
 
 type FS struct {
+	mu    sync.Mutex
 	Files map[string][]byte
 	Dirs  map[string]bool
 	Log   []string // mutating calls: "write <path>", "remove <path>", "rename a b", "truncate <path>"
@@ -70,6 +72,9 @@ func (fs *FS) Open(filename string) (billy.File, error) {
 }
 
 func (fs *FS) OpenFile(filename string, flag int, perm os.FileMode) (billy.File, error) {
+	m := &fs.root().mu
+	m.Lock()
+	defer m.Unlock()
 	r := fs.root()
 	p := fs.abs(filename)
 	_, exists := r.Files[p]
@@ -91,6 +96,9 @@ func (fs *FS) OpenFile(filename string, flag int, perm os.FileMode) (billy.File,
 }
 
 func (fs *FS) Stat(filename string) (os.FileInfo, error) {
+	m := &fs.root().mu
+	m.Lock()
+	defer m.Unlock()
 	r := fs.root()
 	p := fs.abs(filename)
 	if c, ok := r.Files[p]; ok {
@@ -110,6 +118,9 @@ func (fs *FS) Stat(filename string) (os.FileInfo, error) {
 func (fs *FS) Lstat(filename string) (os.FileInfo, error) { return fs.Stat(filename) }
 
 func (fs *FS) Rename(oldpath, newpath string) error {
+	m := &fs.root().mu
+	m.Lock()
+	defer m.Unlock()
 	r := fs.root()
 	o, n := fs.abs(oldpath), fs.abs(newpath)
 	c, ok := r.Files[o]
@@ -123,6 +134,9 @@ func (fs *FS) Rename(oldpath, newpath string) error {
 }
 
 func (fs *FS) Remove(filename string) error {
+	m := &fs.root().mu
+	m.Lock()
+	defer m.Unlock()
 	r := fs.root()
 	p := fs.abs(filename)
 	if _, ok := r.Files[p]; ok {
@@ -140,6 +154,9 @@ func (fs *FS) Remove(filename string) error {
 
 // RemoveAll is what billy/util.RemoveAll resolves to for filesystems that provide it.
 func (fs *FS) RemoveAll(filename string) error {
+	m := &fs.root().mu
+	m.Lock()
+	defer m.Unlock()
 	r := fs.root()
 	p := fs.abs(filename)
 	var victims []string
@@ -168,6 +185,9 @@ func (fs *FS) TempFile(dir, prefix string) (billy.File, error) {
 }
 
 func (fs *FS) ReadDir(p string) ([]os.FileInfo, error) {
+	m := &fs.root().mu
+	m.Lock()
+	defer m.Unlock()
 	r := fs.root()
 	d := fs.abs(p)
 	seen := map[string]bool{}
@@ -198,6 +218,9 @@ func (fs *FS) ReadDir(p string) ([]os.FileInfo, error) {
 }
 
 func (fs *FS) MkdirAll(filename string, perm os.FileMode) error {
+	m := &fs.root().mu
+	m.Lock()
+	defer m.Unlock()
 	fs.root().Dirs[fs.abs(filename)] = true
 	return nil
 }
@@ -214,6 +237,9 @@ func (fs *FS) Root() string { return "/" + fs.Prefix }
 func (f *file) Name() string { return f.name }
 
 func (f *file) Write(p []byte) (int, error) {
+	m := &f.fs.root().mu
+	m.Lock()
+	defer m.Unlock()
 	if f.closed {
 		return 0, os.ErrClosed
 	}
@@ -235,6 +261,9 @@ func (f *file) Write(p []byte) (int, error) {
 }
 
 func (f *file) Read(p []byte) (int, error) {
+	m := &f.fs.root().mu
+	m.Lock()
+	defer m.Unlock()
 	if f.closed {
 		return 0, os.ErrClosed
 	}
@@ -248,6 +277,9 @@ func (f *file) Read(p []byte) (int, error) {
 }
 
 func (f *file) ReadAt(p []byte, off int64) (int, error) {
+	m := &f.fs.root().mu
+	m.Lock()
+	defer m.Unlock()
 	c := f.fs.root().Files[f.name]
 	if int(off) >= len(c) {
 		return 0, io.EOF
@@ -260,6 +292,9 @@ func (f *file) ReadAt(p []byte, off int64) (int, error) {
 }
 
 func (f *file) Seek(offset int64, whence int) (int64, error) {
+	m := &f.fs.root().mu
+	m.Lock()
+	defer m.Unlock()
 	c := f.fs.root().Files[f.name]
 	switch whence {
 	case io.SeekStart:
@@ -284,6 +319,9 @@ func (f *file) Lock() error   { return nil }
 func (f *file) Unlock() error { return nil }
 
 func (f *file) Truncate(size int64) error {
+	m := &f.fs.root().mu
+	m.Lock()
+	defer m.Unlock()
 	r := f.fs.root()
 	f.fs.mutate("truncate " + f.name)
 	c := r.Files[f.name]
